@@ -249,6 +249,9 @@ func run(s *script) (msg string, vs []verdict, nrounds int) {
 		}
 		// (4) exact model when every source answered in time with |offset| < 2^62
 		v := verdict{}
+		if bRef > 1<<61 && bPeer < 1<<63 {
+			v.labels = append(v.labels, "bounds-beyond-2^61-ns")
+		}
 		exact := s.Timeout > 0
 		for _, a := range s.Rounds[k] {
 			if a.Kind != kOK || a.Delay >= s.Timeout || a.Offset <= -(1<<62) || a.Offset >= 1<<62 {
@@ -359,6 +362,15 @@ func genScript(t *rapid.T) *script {
 	s.Cutoff = rapid.OneOf(rapid.Int64Range(0, int64(time.Millisecond)), rapid.SampledFrom([]int64{0, 1, 50000, math.MaxInt64}), rapid.Int64Range(0, math.MaxInt64)).Draw(t, "cutoff")
 	s.Unknown = rapid.IntRange(0, 5).Draw(t, "unknown") == 0
 	s.DriftRate = rapid.OneOf(rapid.Float64Range(1e-9, 1e-3), rapid.Float64Range(1e-12, 1), rapid.SampledFrom([]float64{250e-6, 1e-6, 1})).Draw(t, "rate")
+	// bounds of the order of 2^62..2^63 ns (admissible, if absurd: drift 1 s/s over a day, factors of 10^4..10^5):
+	// the two bounded values can then be further apart than an int64 holds
+	huge := rapid.IntRange(0, 11).Draw(t, "huge-bounds") == 0
+	if huge {
+		s.Unknown, s.DriftRate, s.Interval = false, 1, int64(24*time.Hour)
+		s.Timeout = rapid.SampledFrom([]int64{1000, int64(time.Second)}).Draw(t, "huge-timeout")
+		s.R = rapid.Float64Range(2e4, 1.05e5).Draw(t, "huge-r")
+		s.P = s.R * rapid.Float64Range(1.1, 2).Draw(t, "huge-pmul")
+	}
 	switch bad {
 	case 0:
 		s.R = rapid.SampledFrom([]float64{1, 0.5, 0, -1, math.Inf(-1), math.NaN()}).Draw(t, "badr")
@@ -396,6 +408,9 @@ func genScript(t *rapid.T) *script {
 		rapid.Int64Range(-clampI(bPeer)*2-10, clampI(bPeer)*2+10),
 		rapid.Int64Range(-(1<<62)+1, 1<<62-1),
 	)
+	if huge {
+		offg = rapid.OneOf(rapid.SampledFrom([]int64{math.MinInt64, math.MinInt64 + 1, math.MaxInt64, math.MaxInt64 - 1, -(1 << 62), 1 << 62}), offg)
+	}
 	allOK := rapid.IntRange(0, 2).Draw(t, "mostly-ok") > 0
 	for k := 0; k < nr; k++ {
 		var as []answer
@@ -424,7 +439,7 @@ func genScript(t *rapid.T) *script {
 	return s
 }
 
-var rec = ev.New("c01/sync-rounds", "rapid state histories: configuration (impact factors incl. nextafter(1), +Inf and, among the inadmissible ones, NaN, cutoff 0..MaxInt64, interval 2 ns..24 h, timeout 0..interval/2, drift rate 1e-12..1 or unknown; ~1/3 deliberately inadmissible), 0..7 reference clocks, 0..7 peers, 1..8 rounds; per round and source an offset from an int64 mixture dense at the cutoff and both bounds and an outcome (in time, error, late, blocks until cancelled, exactly at the timeout). sync.Run is executed for real in a synctest bubble with a scripted clock and a recording discipline. Oracle: refusal iff inadmissible and before any actuation; exactly one correction then Sleep(interval) per round; |corr| <= factor*Drift(interval) per the statement; exact reference model (FTM, cutoff, clamps, midpoint) for rounds in which every source answered in time. One evaluation = one round (or one refused configuration). Non-trivial: a clamp engaged, the cutoff suppressed the peers, both kinds contributed, or a source failed/was late; distinct by hash of (configuration, round answers)")
+var rec = ev.New("c01/sync-rounds", "rapid state histories: configuration (impact factors incl. nextafter(1), +Inf and, among the inadmissible ones, NaN, cutoff 0..MaxInt64, interval 2 ns..24 h, timeout 0..interval/2, drift rate 1e-12..1 or unknown, and one configuration in twelve with bounds of 2^61..2^63 ns and sources reporting the int64 extremes; ~1/3 deliberately inadmissible), 0..7 reference clocks, 0..7 peers, 1..8 rounds; per round and source an offset from an int64 mixture dense at the cutoff and both bounds and an outcome (in time, error, late, blocks until cancelled, exactly at the timeout). sync.Run is executed for real in a synctest bubble with a scripted clock and a recording discipline. Oracle: refusal iff inadmissible and before any actuation; exactly one correction then Sleep(interval) per round; |corr| <= factor*Drift(interval) per the statement; exact reference model (FTM, cutoff, clamps, midpoint) for rounds in which every source answered in time. One evaluation = one round (or one refused configuration). Non-trivial: a clamp engaged, the cutoff suppressed the peers, both kinds contributed, or a source failed/was late; distinct by hash of (configuration, round answers)")
 
 func TestPropSyncLoop(t *testing.T) {
 	vt.Check(t, 60000, 300000, func(t *rapid.T) {
